@@ -13,7 +13,11 @@ RULE = ("scripts of 10..60 operations over up to 6 instrumented processes on one
         "least one termination. gen_server: a GenServerProcess around an instrumented server in the library's process loop, scripts of 1..25 "
         "mailbox messages: calls from live, unregistered and unknown callers with fresh and repeated references, requests answered, "
         "left unanswered or failing, casts, plain messages, exit signals, ignored kinds and eleven near misses of the call / cast shapes; "
-        "observed: what the callbacks saw, each caller's mailbox, whether the process survived")
+        "observed: what the callbacks saw, each caller's mailbox, whether the process survived. gen_event: a GenEventManager with 0..3 "
+        "instrumented handlers (one id possibly installed twice, init possibly failing), scripts of 1..25 messages: notify, sync_notify, calls "
+        "to installed / removed / never-installed handler ids from live, unregistered and unknown callers, which_handlers, plain messages, exit "
+        "signals and ten near misses; handlers that ask to be removed, fail, swap themselves for a successor whose init succeeds or fails; "
+        "observed per handler key and per caller (the hash map's visiting order is not compared)")
 ASSUMPTIONS = ["Node::start registers with an EPMD stand-in served by the harness on localhost:4369 (the library fixes host and port)",
                "one operation is run to quiescence before the next: interleavings inside an operation are not sampled by this check",
                "identifiers and references are taken from the implementation's output; the oracle demands only that they are pairwise distinct"]
@@ -259,6 +263,179 @@ def gsrv_oracle(case, impl):
     return None
 
 
+# ------------------------------------------------------------------------------------------
+# the gen_event behaviour (domain gevt)
+
+HIDS = [A(b"log"), A(b"alt"), ("t", [A(b"h"), ("i", 1)]), ("b", b"bin")]
+
+
+def gen_gevt(rng):
+    ncall = rng.choice([1, 2, 3])
+    mask = "".join(rng.choice("110") for _ in range(ncall))
+    steps, refs = [], 0
+    ids = rng.sample(HIDS, rng.choice([0, 1, 2, 3]))
+    for h in ids:
+        steps.append("H %s %s" % (etf.show(h), etf.show(A(b"bad") if rng.random() < 0.15 else A(b"args"))))
+    if ids and rng.random() < 0.15:          # the same id installed twice: the second replaces the first
+        steps.append("H %s %s" % (etf.show(ids[0]), etf.show(A(b"again"))))
+    words = [A(b"ev"), A(b"ev"), ("i", 3), A(b"remove"), A(b"fail"), A(b"swap"), A(b"badswap"), A(b"count"), ("t", [A(b"x"), ("n",)])]
+    for _ in range(rng.choice([1, 3, 6, 12, 25])):
+        r = rng.random()
+        k = rng.randrange(ncall + 1)
+        pid = caller_pid(k) if k < ncall else ("p", b"other@h", 7, 0, 1, None)
+        frm = "$%d" % rng.randrange(ncall) if rng.random() < 0.6 else "-"
+        refs += 1
+        ref = ("r", b"c@h", 1, [rng.choice([refs, 1])], None)
+        w = rng.choice(words)
+        hid = rng.choice(HIDS + [("t", [rng.choice(HIDS), ("i", 2)])])
+        if r < 0.2:
+            steps.append("R %s %s" % (frm, etf.show(("t", [A(b"$gen_notify"), w]))))
+        elif r < 0.35:
+            steps.append("R %s %s" % (frm, etf.show(("t", [A(b"$gen_sync_notify"), w]))))
+        elif r < 0.65:
+            steps.append("R %s %s" % (frm, etf.show(("t", [A(b"$gen_call"), ("t", [pid, ref]), hid, w]))))
+        elif r < 0.75:
+            steps.append("R %s %s" % (frm, etf.show(("t", [A(b"$gen_which_handlers"), ("t", [pid, ref])]))))
+        elif r < 0.8:
+            steps.append("R %s %s" % (frm, etf.show(w)))
+        elif r < 0.85:
+            steps.append("X " + etf.show(rng.choice([A(b"normal"), A(b"kill")])))
+        elif r < 0.88:
+            steps.append("O")
+        else:       # near misses: ordinary messages for every handler's handle_info
+            bad = rng.choice([
+                ("t", [A(b"$gen_call"), ("t", [pid, ref]), w]),                       # gen_server's shape: three elements
+                ("t", [A(b"$gen_call"), ("t", [pid, ref]), hid, w, w]),               # five
+                ("t", [A(b"$gen_call"), ("t", [ref, pid]), hid, w]),                  # from-tuple swapped
+                ("t", [A(b"$gen_call"), pid, hid, w]),                                # bare pid
+                ("t", [A(b"$gen_notify")]), ("t", [A(b"$gen_notify"), w, w]),
+                ("t", [A(b"$gen_sync_notify"), w, w]),
+                ("t", [A(b"$gen_which_handlers"), pid]), ("t", [A(b"$gen_which_handlers"), ("t", [pid, ref]), w]),
+                ("t", [("b", b"$gen_notify"), w]),
+            ])
+            steps.append("R %s %s" % (frm, etf.show(bad)))
+    return SEP.join(["gevt " + mask] + steps)
+
+
+class DemoHandler:
+    def __init__(self, hid):
+        self.id, self.count = hid, 0
+
+
+def gevt_expect(case):
+    """the gen_event protocol with the instrumented handler (event / request words decide what a callback does)"""
+    parts = case.split(SEP)
+    mask = parts[0].split()[1]
+    live = {etf.show(caller_pid(k)): k for k in range(len(mask)) if mask[k] == "1"}
+    hs = {}                       # key text -> handler, insertion-ordered (order is not compared)
+    logs, boxes = {}, {k: [] for k in range(len(mask))}
+
+    def note(key, what, t):
+        logs.setdefault(key, []).append("%s %s" % (what, etf.show(t)))
+
+    def successor(h):
+        return DemoHandler(("t", [h.id, ("i", 2)]))
+
+    def reply(pid, t):
+        if etf.show(pid) in live:
+            boxes[live[etf.show(pid)]].append(etf.show(t))
+
+    def shaped(x):
+        return x[0] == "t" and len(x[1]) == 2 and x[1][0][0] == "p" and x[1][1][0] == "r"
+
+    def notify(ev):
+        gone = []
+        for key in list(hs):
+            h = hs[key]
+            note(key, "event", ev)
+            if ev in (A(b"remove"), A(b"fail")):
+                gone.append(key)
+            elif ev in (A(b"swap"), A(b"badswap")):
+                note(key, "term", A(b"swap"))
+                hs[key] = successor(h)
+                args = A(b"swapped") if ev == A(b"swap") else A(b"bad")
+                note(key, "init", args)
+                if args == A(b"bad"):
+                    gone.append(key)
+            else:
+                h.count += 1
+        for key in gone:
+            del hs[key]
+            note(key, "term", A(b"error"))
+
+    for st in parts[1:]:
+        kind, _, rest = st.partition(" ")
+        if kind == "H":
+            t = etf.Toks(rest)
+            hid, args = etf.read_term(t), etf.read_term(t)
+            key = etf.show(hid)
+            note(key, "init", args)
+            if args != A(b"bad"):
+                hs[key] = DemoHandler(hid)
+            continue
+        if kind == "O":
+            continue
+        if kind == "X":
+            for key in hs:
+                note(key, "term", etf.parse_term(rest))
+            continue
+        frm, _, body = rest.partition(" ")
+        t = etf.parse_term(body)
+        tag = t[1][0] if t[0] == "t" and len(t[1]) >= 2 and t[1][0][0] == "a" else None
+        if tag == A(b"$gen_notify") and len(t[1]) == 2:
+            notify(t[1][1])
+        elif tag == A(b"$gen_sync_notify") and len(t[1]) == 2:
+            notify(t[1][1])
+            if frm != "-":
+                reply(caller_pid(int(frm[1:])), A(b"ok"))
+        elif tag == A(b"$gen_call") and len(t[1]) == 4 and shaped(t[1][1]):
+            pid, ref = t[1][1][1]
+            key, req = etf.show(t[1][2]), t[1][3]
+            ans = A(b"error")
+            if key in hs:
+                h = hs[key]
+                note(key, "call", req)
+                if req == A(b"count"):
+                    ans = ("i", h.count)
+                elif req == A(b"remove"):
+                    del hs[key]; note(key, "term", A(b"normal")); ans = A(b"ok")
+                elif req == A(b"fail"):
+                    del hs[key]; note(key, "term", A(b"error"))
+                elif req in (A(b"swap"), A(b"badswap")):
+                    note(key, "term", A(b"swap"))
+                    hs[key] = successor(h)
+                    args = A(b"swapped") if req == A(b"swap") else A(b"bad")
+                    note(key, "init", args)
+                    if args != A(b"bad"):
+                        ans = A(b"ok")
+                else:
+                    ans = ("t", [h.id, req])
+            reply(pid, ("t", [ref, ans]))
+        elif tag == A(b"$gen_which_handlers") and len(t[1]) == 2 and shaped(t[1][1]):
+            pid, ref = t[1][1][1]
+            reply(pid, ("t", [ref, ("l", sorted((h.id for h in hs.values()), key=etf.show))]))
+        else:
+            for key, h in hs.items():
+                note(key, "info", t)
+                h.count += 100
+    j = lambda l: " , ".join(l) if l else "-"  # noqa
+    return SEP.join(["h[%s]=%s" % (k, j(logs[k])) for k in sorted(logs)] + ["c%d=%s" % (k, j(boxes[k])) for k in range(len(mask))])
+
+
+def gevt_oracle(case, impl):
+    if impl.startswith(("PANIC", "CRASH", "TIMEOUT")):
+        return ("violation", "did not return: " + impl[:60])
+    want = gevt_expect(case)
+    if impl != want:
+        wi, ww = impl.split(SEP), want.split(SEP)
+        for a, b in zip(wi, ww):
+            if a != b:
+                what = "a caller's mailbox" if a.startswith("c") else "what a handler's callbacks saw"
+                return ("violation", "gen_event: %s differs: got %s, expected %s" % (what, a[:90], b[:90]))
+        return ("violation", "gen_event: output shape differs")
+    return None
+
+
 def run(ctx):
     rng = ctx.rng
     cases = [gen_script(rng) for _ in range(ctx.budget(150, 4000))]
@@ -299,3 +476,13 @@ def run(ctx):
             out.append("gsrv:" + ("call" if "2467656e5f63616c6c" in st else "cast" if "2467656e5f63617374" in st else st.split()[0]))
         return out
     ctx.diff_domain("gsrv", gcases, oracle=gsrv_oracle, nontrivial=lambda c, i: c if " , " in i else None, classify=gclassify)
+    ecases = list(dict.fromkeys(gen_gevt(rng) for _ in range(ctx.budget(400, 12000))))
+
+    def eclassify(c, impl):
+        out = ["gevt:handlers=%d" % sum(1 for st in c.split(SEP) if st.startswith("H "))]
+        for st in c.split(SEP)[1:]:
+            for tag, nm in ((b"$gen_notify", "notify"), (b"$gen_sync_notify", "sync_notify"), (b"$gen_call", "call"), (b"$gen_which_handlers", "which")):
+                if tag.hex() + " " in st + " ":
+                    out.append("gevt:" + nm)
+        return out
+    ctx.diff_domain("gevt", ecases, oracle=gevt_oracle, nontrivial=lambda c, i: c if " , " in i else None, classify=eclassify)
